@@ -69,8 +69,10 @@ class Mat:
                 # a byte-identical copy of another file of the tree
                 text, lines_of = self.text[f["copyof"]], self.lines_of[f["copyof"]]
             else:
+                # a file that gets a Fortran extension is written as Fortran (same items, same line structure)
+                is_f = bool(ext_of and ext_of.get(fid, "").lower() in (".f90", ".f"))
                 text, lines_of = render.render_c(f["items"], seed=rnd.random(), uid="v" + "".join(c for c in fid if c.isalnum()),
-                                                 plain=plain, xstr=xstr, dotted=dotted)
+                                                 plain=plain, xstr=xstr and not is_f, dotted=dotted, fortran=is_f)
             if f.get("copyof") and random.Random(f"{seed}-hardlink").random() < 0.5:
                 # the copy is a second directory entry of the same inode (cp -l): still an ordinary file
                 os.link(self.paths[f["copyof"]], path)
